@@ -173,9 +173,11 @@ EXTRA5 = {
  'C09': ' R13: a transaction-control unit that changes the compiler-side state is not cacheable; R14 = C17.R10: a worker remembers (LAST_STATE) only the state returned by a completed compile call, and it is the state it pickles into the reply.',
  'C10': ' R2: a dropped pointer releases its target on every path (no ownership test can skip the release).',
  'C12': ' R12: the common type of two collections hands one operand back only under an equality test of the two.',
- 'C17': ' R9 also: no explicit raise precedes __sync__ in a worker entry point (an error reply acknowledges the transfer too); R10 = C09.R14.',
+ 'C17': ' R9 also: no explicit raise precedes __sync__ in a worker entry point (an error reply acknowledges the transfer too); R10 = C09.R14; R11: a transfer computed against one worker\'s believed state is sent to that worker only (no rebinding of the worker reaches the call without a fresh computation).',
  'C18': ' R2 also: under the assumption that the non-printable guard matched, no open path of visit_Constant writes the value as is or dollar-quoted (path fact; single-character containment tests are independent of the guard); the slip battery covers the SQL source generator (memo keys).',
 }
+EXTRA5['C14'] = ' R9: per descriptor tag, the conditions under which an element field is present agree between the encoder and the decoder loops.'
+EXTRA5['C19'] = ' R12: the source and scope recorded by set_value do not derive from the map being updated; R13: the compilation-config blob folds its scopes so that a later (more specific) argument wins (update loop in order, or ChainMap over the reversed sequence).'
 for _k, _v in EXTRA5.items():
     CLAIMED[_k]['text'] += _v
 LINT_NOTE = (' Rule <id>.L is a battery of slip patterns scoped to the packages the property is anchored in (swapped arguments, like-for-like copies, mirrored / duplicated statements, dropped options, discarded updates, loop slips, memo keys that do not cover the inputs, identity keys, lossy-key maps, cache-key equality, arm-family copies, class-level shared tables, loop-invariant comprehension filters, truthiness tests on int-enum fields with a zero member); each pattern has no unaudited instance on the tree the rules were written against.')
